@@ -833,6 +833,10 @@ func (c *Conn) advanceFrame() (int, error) {
 			return noFrame, err
 		}
 		c.readRemaining = int64(binary.BigEndian.Uint64(p))
+		// RFC 6455 5.2: the most significant bit of a 64-bit length MUST be 0.
+		if c.readRemaining < 0 {
+			return noFrame, c.handleProtocolError("unexpected payload length")
+		}
 	}
 
 	// 4. Handle frame masking.
